@@ -1,5 +1,6 @@
 SPECIFICATION Spec
 CONSTANTS
+  ReAddOn <- ReAddEnv
   Lng <- LngDef
   NamePool <- NamePoolDef
   IdPool <- IdPoolDef
